@@ -73,3 +73,9 @@ func (*RandReader) Read(p []byte) (int, error) {
 }
 
 func SymbolicTime() { panic("vf: engine intrinsic") }
+
+// Enc / Dec give the harness access to the codec used for gzip, deflate,
+// snappy-stream and snappy-block (a tagged framing model in the engine, the
+// real codec natively).
+func Enc(codec string, plain []byte) []byte        { panic("vf: engine intrinsic") }
+func Dec(codec string, enc []byte) ([]byte, bool) { panic("vf: engine intrinsic") }
